@@ -375,6 +375,8 @@ fn fam_wrap(ctx: &CaseCtx, cov: &mut Cov) -> CaseOut {
             *rng.pick(&[Term::Marker, Term::HeaderSize, Term::RawSized]),
         )
     };
+    // the raw constructor takes the dictionary size literally (and refuses 0)
+    let dict = if term.is_raw() && dict == 0 { 4096 } else { dict };
     let eff = if term.is_raw() { dict as u64 } else { (dict as u64).max(4096) };
     let laps = rng.range(1, ctx.tier.pick(12, 64));
     let target = (eff * laps + rng.below(eff + 1)) as usize;
